@@ -34,6 +34,10 @@ NEW = {"framer": ["zqx", "zq_7", "mainframe9", "meZ"], "frame": ["wvu", "wv_2", 
        "actor": ["KjHg", "KjH2", "Valve7", "K_j"]}
 
 
+TAGS = ["cl", "cm", "cn"]
+NEW["tag"] = ["zz", "z9", "main7"]
+
+
 def name_parts(name):
     """the `as` clause tokens that build this actor name: `as kj h2` -> KjH2"""
     return [p[0].lower() + p[1:] for p in re.findall(r"[A-Z][^A-Z]*", name)]
@@ -259,15 +263,29 @@ def gen_skeleton(rng, with_acts):
                                 "acts": [], "clones": []}]}
             framers.append(moot)
             names["framer"].append("mike")
-            host = rng.choice(framers[0]["frames"])
-            host["clones"].append({"of": "mike", "tag": "cl",
-                                   "via": gen_ref(rng, True, names, safe=True, main_ok=False, unique=True) if rng.random() < 0.5 else None})
+            names["tag"] = TAGS[:rng.choice([1, 2, 2, 3])]
+            for tag in names["tag"]:              # the moot is cloned one to three times
+                host = rng.choice(framers[0]["frames"])
+                host["clones"].append({"of": "mike", "tag": tag,
+                                       "via": gen_ref(rng, True, names, safe=True, main_ok=False, unique=True) if rng.random() < 0.4 else None})
         ai = 0
         for fr in framers:
             mok = fr["sched"] == "moot"
             for f in fr["frames"]:
                 for _ in range(rng.choice([1, 1, 2, 3])):
-                    if rng.random() < 0.55:
+                    r0 = rng.random()
+                    if r0 < 0.3:
+                        # a transition whose needs refer to shares relatively / to the framer's own clocks
+                        needs = []
+                        for _n in range(rng.choice([1, 1, 2])):
+                            if rng.random() < 0.6:
+                                needs.append({"kind": "ref", "ref": gen_ref(rng, False, names, safe=True, main_ok=mok, unique=True),
+                                              "cmp": rng.choice(["", " == 1", " >= 2"])})
+                            else:
+                                needs.append({"kind": "clock", "which": rng.choice(["elapsed", "recurred"]),
+                                              "re": rng.choice([None, "me", fr["name"], fr["name"]])})
+                        f["acts"].append({"verb": "go", "needs": needs})
+                    elif r0 < 0.65:
                         f["acts"].append({"verb": "put", "ref": gen_ref(rng, False, names, safe=True, main_ok=mok, unique=True)})
                     else:
                         pers = []
@@ -318,6 +336,12 @@ def gen_ipath(rng, avoid, quoted=False, safe=False, no_names=False):
     return p
 
 
+def need_text(nd):
+    if nd["kind"] == "ref":
+        return " ".join(ref_tokens(nd["ref"])) + nd["cmp"]
+    return "%s%s >= 1" % (nd["which"], "" if nd["re"] is None else " re " + nd["re"])
+
+
 def script(prog):
     L = ["house h", ""]
     for fr in prog["framers"]:
@@ -341,6 +365,8 @@ def script(prog):
             for a in f["acts"]:
                 if a["verb"] == "put":
                     L.append("      put 1 into " + " ".join(ref_tokens(a["ref"])))
+                elif a["verb"] == "go":
+                    L.append("      go me if " + " and ".join(need_text(nd) for nd in a["needs"]))
                 else:
                     line = "      do fb ref"
                     if a["via"]:
@@ -373,12 +399,20 @@ def rename_prog(prog, kind, old, new):
                     f["over"] = new
             f["via"] = rename_ref(f["via"], kind, old, new)
             for c in f["clones"]:
+                if kind == "tag" and c["tag"] == old:
+                    c["tag"] = new
                 if kind == "framer" and c["of"] == old:
                     c["of"] = new
                 c["via"] = rename_ref(c["via"], kind, old, new)
             for a in f["acts"]:
                 if a["verb"] == "put":
                     a["ref"] = rename_ref(a["ref"], kind, old, new)
+                elif a["verb"] == "go":
+                    for nd in a["needs"]:
+                        if nd["kind"] == "ref":
+                            nd["ref"] = rename_ref(nd["ref"], kind, old, new)
+                        elif kind == "framer" and nd["re"] == old:
+                            nd["re"] = new
                 else:
                     a["via"] = rename_ref(a["via"], kind, old, new)
                     for sc in a.get("src", {}).values():
@@ -411,9 +445,13 @@ def replace_name(path, kind, old, new):
     segs = path.split(".")
     if kind == "frame":
         return ".".join(new if s == old else s for s in segs)
+    alltags = TAGS + NEW["tag"]
     if kind == "framer":
         # a clone of a moot framer is named <surname of its main framer>_<tag>
-        return ".".join(new if s == old else new + s[len(old):] if s.startswith(old + "_cl") else s for s in segs)
+        return ".".join(new if s == old else new + s[len(old):]
+                        if s.startswith(old + "_") and s[len(old) + 1:] in alltags else s for s in segs)
+    if kind == "tag":
+        return ".".join(s[:-len(old)] + new if s.endswith("_" + old) else s for s in segs)
     o, n = actor_parts(old), actor_parts(new)
     out, i = [], 0
     while i < len(segs):
@@ -556,13 +594,22 @@ def prog_refs(prog, sk):
         if fr["sched"] == "moot":
             continue
         rows += framer_rows(prog, sk, fr, fr["name"])
-    # the clone of the moot framer: named <surname>_<tag>
+    # the clones of the moot framer: named <surname>_<tag>
+    for name, crow in clone_rows(prog, sk):
+        rows += crow
+    return rows
+
+
+def clone_rows(prog, sk):
+    """[(clone framer name, its rows)] — the rows of all clones of one moot are aligned position by position"""
+    out = []
     for fr in prog["framers"]:
         for f in fr["frames"]:
             for c in f["clones"]:
                 moot = [m for m in prog["framers"] if m["name"] == c["of"]][0]
-                rows += framer_rows(prog, sk, moot, "%s_%s" % (fr["name"], c["tag"]))
-    return rows
+                name = "%s_%s" % (fr["name"], c["tag"])
+                out.append((name, framer_rows(prog, sk, moot, name)))
+    return out
 
 
 def framer_rows(prog, sk, fr, realname):
@@ -572,11 +619,22 @@ def framer_rows(prog, sk, fr, realname):
         fobj = frobj.frameNames[f["name"]]
         puts = [a for a in fobj.enacts if type(a.actor).__name__ == "PokeDirect"]
         dos = [a for a in fobj.reacts if type(a.actor).__name__ == "FbRef"]
-        pi = di = 0
+        gos = [a for a in fobj.preacts if type(a.actor).__name__ == "Transiter"]
+        pi = di = gi = 0
         for a in f["acts"]:
             if a["verb"] == "put":
                 act = puts[pi]; pi += 1
                 rows.append(("put", fobj, act.actor.name, None, ref_tokens(a["ref"]), False, act.parms["destination"].name))
+            elif a["verb"] == "go":
+                act = gos[gi]; gi += 1
+                for nd, nact in zip(a["needs"], act.parms["needs"]):
+                    st = nact.parms["state"].name
+                    if nd["kind"] == "ref":
+                        rows.append(("go.need", fobj, nact.actor.name, None, ref_tokens(nd["ref"]), False, st))
+                    else:
+                        # "implied state is framer.<current framer>.state.<name>": the relative path framer.me.state.<name>
+                        rows.append(("go.clock." + nd["which"], fobj, nact.actor.name, None,
+                                     "framer.me.state." + nd["which"], None, st))
             else:
                 act = dos[di]; di += 1
                 if a["via"] or a["per"]:      # Act.resolve makes iois (the inode among them) only for non-empty ioinits
@@ -606,15 +664,15 @@ def store_shares(sk):
                 walk(val, path)
     for house in sk.houses:
         walk(house.store.shares, [])
-    keep = []
-    for p in out:
-        seg = p.split(".")
-        if seg[0] in ("meta", "time", "realtime", "datetime", "ioflo"):
-            continue
-        if len(seg) == 4 and seg[0] == "framer" and seg[2] == "state" and seg[3] in ("elapsed", "recurred", "active", "human"):
-            continue
-        keep.append(p)
-    return sorted(keep)
+    return sorted(p for p in out if not house_share(p))
+
+
+def house_share(p):
+    """what every house / framer has anyway"""
+    seg = p.split(".")
+    if seg[0] in ("meta", "time", "realtime", "datetime", "ioflo"):
+        return True
+    return len(seg) == 4 and seg[0] == "framer" and seg[2] == "state" and seg[3] in ("elapsed", "recurred", "active", "human")
 
 
 def no_inode_context(frame):
@@ -685,7 +743,7 @@ class CHECK(core.Check):
                 yield self.gen_prog(rng)
 
     def pick_rename(self, rng, names):
-        kinds = [k for k in ("framer", "frame", "actor") if [n for n in names[k] if n != "mike"]]
+        kinds = [k for k in ("framer", "frame", "actor", "tag", "tag") if [n for n in names.get(k, []) if n != "mike"]]
         kind = rng.choice(kinds)
         old = rng.choice([n for n in names[kind] if n != "mike"])
         new = rng.choice(NEW[kind])
@@ -844,7 +902,7 @@ class CHECK(core.Check):
                             lines.append("%s %s" % (d, rep))
                             continue
                         path, kind = rep.rsplit(" ", 1)
-                        if kind == "S":
+                        if kind == "S" and not house_share(norm(path)):
                             shares.add(norm(path))
                         if show:
                             lines.append("%s %s" % (d, norm(path)))
@@ -919,6 +977,25 @@ class CHECK(core.Check):
                 other = seen.setdefault(key, {}).setdefault(norm(r[6]), r[2])
                 if other != r[2]:
                     return "actors %r and %r of frame %s share the inode %r" % (other, r[2], r[1].name, norm(r[6]))
+        # a framer's `elapsed` / `recurred` condition (bare, `re me` or `re <its own name>`) reads that framer
+        # instance's own clock share — in a clone the clone's, not the moot original's
+        for r in rows1:
+            if r[0].startswith("go.clock."):
+                want = "framer.%s.state.%s" % (r[1].framer.name, r[0].split(".")[2])
+                if norm(r[6]) != want:
+                    return "clock condition of framer %s reads %r instead of its own %r" % (r[1].framer.name, norm(r[6]), want)
+        # the clones of a moot are separate instances: the same relative reference must not land on one share
+        # through another clone's name
+        groups = clone_rows(case["prog"], sk1)
+        cnames = [n for n, _ in groups]
+        for i in range(len(groups)):
+            for j in range(i + 1, len(groups)):
+                for ra, rb in zip(groups[i][1], groups[j][1]):
+                    if ra[6] is None or rb[6] is None:
+                        continue
+                    if norm(ra[6]) == norm(rb[6]) and any(cn in norm(ra[6]).split(".") for cn in cnames):
+                        return "%s %r resolves to %r in clone %s and in clone %s" % (
+                            ra[0], ra[4], norm(ra[6]), groups[i][0], groups[j][0])
         absolutes = set()
         for line, r1, r2 in zip(refs, rows1, rows2):
             d, name = line.split(" ", 1) if " " in line else (line, "")
@@ -961,7 +1038,7 @@ class CHECK(core.Check):
             return True
         kind, old, new = case["rename"]
         key = actor_parts(old)[0] if kind == "actor" else old
-        return any(key in line.split(".") or key in re.split(r"[._ ]", line) for line in out)
+        return any(key in line.split(".") or key in re.split(r"[._ ]", line) for line in out if not line.startswith("store"))
 
     def bucket(self, case, out):
         k = case["kind"]
